@@ -280,10 +280,27 @@ class Check:
             self.violations.append({"key": "spec:" + name, "what": "TLC reports %s in bounded model %s" % (res["violated"], name),
                                     "case": {"model": name, "tlc_tail": res["output"][-3000:]}})
 
+    TRIVIAL_EVENTS = ("load", "loadfail", "loop", "stop", "init", "end", "read", "set")
+
     def add_trace(self, res, ntraces):
         self.states += res["distinct"]
         self.transitions += res["generated"]
         self.traces += ntraces
+        self.count_file(res.get("trace"))
+
+    def count_file(self, path):
+        """Measure distinct non-trivial cases: distinct event lines (ids removed) that are not bookkeeping events."""
+        if not path or not os.path.exists(path):
+            return
+        if not hasattr(self, "_seen"):
+            self._seen = set()
+        strip = re.compile(rb'"id":\s*("[^"]*"|\d+),?\s*')
+        with open(path, "rb") as f:
+            for line in f:
+                m = re.search(rb'"ev":\s*"([a-z-]+)"', line)
+                if m and m.group(1).decode() in self.TRIVIAL_EVENTS:
+                    continue
+                self._seen.add(hashlib.md5(strip.sub(b"", line)).digest())
 
     def violation(self, key, what, case):
         self.violations.append({"key": key, "what": what, "case": case})
@@ -298,11 +315,15 @@ class Check:
                 old.setdefault(v["key"], []).append(v)
             else:
                 new.append(v)
+        if hasattr(self, "_seen") and self._seen:
+            self.distinct = len(self._seen)
         cov = {
             "states": max(self.states, 0), "transitions": max(self.transitions, 0),
             "traces_validated_against_impl": self.traces,
             "evaluations": self.evaluations, "distinct_nontrivial": self.distinct,
-            "rule": self.rule, "samples": self.samples[:6] or [{"note": "no sample recorded"}],
+            "rule": self.rule + " | evaluations = cases generated (sessions / texts / files / key sequences); distinct_nontrivial is MEASURED: the number of distinct recorded "
+                    "event lines (case ids removed) that are not bookkeeping events (load, loop tick, stop, init, end, read, set)",
+            "samples": self.samples[:6] or [{"note": "no sample recorded"}],
             "known_findings_seen": sorted(old.keys()),
             "unexercised_spec_actions": sorted(set(self.unexercised)),
         }
